@@ -8,7 +8,7 @@ through `MsgSpec.pack` / `MsgSpec.unpack` (Model/Message.lean): MTI, bitmap (C05
 -/
 import Iso8583.Spec.Statements
 import Iso8583.Props.C05
-import Iso8583.Props.C19
+import Iso8583.Lemmas.Scan
 
 namespace Iso8583.MessageRT
 open Iso8583 Bitmap MsgSpec
